@@ -15,6 +15,12 @@
    signals blocked and the signal lock held, and the handler holds the lock:
    start, stop and one delivery are atomic with respect to each other.  They
    are therefore single functions here.
+   The protocol that gives this atomicity - uv__signal_block_and_lock: block
+   every signal, then take the lock; uv__signal_unlock_and_unblock: release the
+   lock, then restore the mask; the handler: take and release the lock with
+   sa_mask full - is modelled at the end of this file ([csys]); what stays
+   trusted is that the kernel does not deliver a blocked signal and that a
+   1-byte pipe read/write is an atomic take/put of the token.
 
    Three switches select the variant of the code that is modelled:
    [fx] - [true] = the code as it is since /repo commit 6ba1164
@@ -414,3 +420,84 @@ Fixpoint run (fx fs fr : bool) (beh : nat -> list op) (fuel : nat) (s : state) (
   end.
 
 Definition trace_of (s : state) : list event := rev (tr s).
+
+(* ------------------------------------------------------------------ *)
+(* The critical sections.  Threads make API calls that enter the critical *)
+(* section of uv__signal_start / uv__signal_stop; the kernel may run the *)
+(* handler in any thread that does not block the signal.  The lock is a  *)
+(* pipe holding one token.                                               *)
+(*   [order = true]  the code as it is: uv__signal_block_and_lock blocks *)
+(*                   every signal and then reads the token;              *)
+(*   [order = false] the other order (read the token, then block).       *)
+(* ------------------------------------------------------------------ *)
+Inductive cpc :=
+| CIdle                    (* between two API calls *)
+| CEntry1                  (* first step of uv__signal_block_and_lock done *)
+| CIn                      (* in the critical section *)
+| CBodyDone                (* tree / sigaction work done *)
+| CUnlocked                (* uv__signal_unlock done, mask not yet restored *)
+| CH1                      (* uv__signal_handler entered (sa_mask: everything blocked) *)
+| CH2                      (* ... holds the lock, writes its messages *)
+| CH3.                     (* ... has released the lock *)
+
+Record cthread := mkCT {
+  c_pc : cpc;
+  c_saved : cpc;             (* where the handler returns to *)
+  c_blocked : bool;          (* every signal blocked in this thread *)
+  c_holds : bool;            (* this thread has taken the token *)
+  c_calls : nat              (* API calls still to make *)
+}.
+
+Record csys := mkCS { c_token : bool; c_thr : list cthread }.
+
+Inductive cchoice :=
+| CRun (t : nat)             (* thread t makes its next step (nothing happens if it waits for the token) *)
+| CSignal (t : nat).         (* the kernel delivers a watched signal to thread t (only if it does not block it) *)
+
+Definition ct_dflt : cthread := mkCT CIdle CIdle false false 0.
+
+Definition cstep_thread (order : bool) (tok : bool) (x : cthread) : bool * cthread :=
+  match c_pc x with
+  | CIdle =>
+      match c_calls x with
+      | O => (tok, x)
+      | S _ =>
+          if order then (tok, mkCT CEntry1 (c_saved x) true (c_holds x) (c_calls x))
+          else if tok then (false, mkCT CEntry1 (c_saved x) (c_blocked x) true (c_calls x))
+          else (tok, x)
+      end
+  | CEntry1 =>
+      if order then
+        if tok then (false, mkCT CIn (c_saved x) (c_blocked x) true (c_calls x)) else (tok, x)
+      else (tok, mkCT CIn (c_saved x) true (c_holds x) (c_calls x))
+  | CIn => (tok, mkCT CBodyDone (c_saved x) (c_blocked x) (c_holds x) (c_calls x))
+  | CBodyDone => (true, mkCT CUnlocked (c_saved x) (c_blocked x) false (c_calls x))
+  | CUnlocked => (tok, mkCT CIdle (c_saved x) false (c_holds x) (pred (c_calls x)))
+  | CH1 => if tok then (false, mkCT CH2 (c_saved x) (c_blocked x) true (c_calls x)) else (tok, x)
+  | CH2 => (true, mkCT CH3 (c_saved x) (c_blocked x) false (c_calls x))
+  | CH3 => (tok, mkCT (c_saved x) (c_saved x) false (c_holds x) (c_calls x))
+  end.
+
+Definition csignal_thread (x : cthread) : cthread :=
+  if c_blocked x then x
+  else mkCT CH1 (c_pc x) true (c_holds x) (c_calls x).
+
+Definition cstep (order : bool) (st : csys) (c : cchoice) : csys :=
+  match c with
+  | CRun t =>
+      if t <? length (c_thr st) then
+        let '(tok, x) := cstep_thread order (c_token st) (nth t (c_thr st) ct_dflt) in
+        mkCS tok (upd t (fun _ => x) (c_thr st))
+      else st
+  | CSignal t => mkCS (c_token st) (upd t csignal_thread (c_thr st))
+  end.
+
+Fixpoint crun (order : bool) (st : csys) (cs : list cchoice) : csys :=
+  match cs with
+  | [] => st
+  | c :: r => crun order (cstep order st c) r
+  end.
+
+(* n threads, each with [calls] API calls to make, the token in the pipe *)
+Definition cinit (n calls : nat) : csys :=
+  mkCS true (repeat (mkCT CIdle CIdle false false calls) n).
